@@ -32,6 +32,9 @@ CHECK = {
            'three entries of several types with the matching entry first, middle or last; non-matching entries have another type than the thrown '
            'object or the same type and another value, including traps (a String spelling the name of a thrown Type, an Int / struct carrying the '
            'number of a thrown String): a handler runs iff some entry has the thrown object\'s type and is eq to it. '
+           'In the msg=1..4|mix instances every throw formats a message argument whose Show method itself uses the exception system (handles an inner '
+           'exception of another kind / of the same object as the outer throw / enters a try that throws nothing / two nested trys): the program must '
+           'behave exactly as with a plain message. '
            'Deep nesting (mode=deep): recursion with D try blocks open at once, D in {1,2,3,17,100,1000,MAX-2,MAX-1,MAX} with MAX = '
            'EXCEPTION_MAX_DEPTH taken from the library source (MAX+1 aborts by design and is not run), non-matching filters at every level '
            'except a target (outermost/middle/innermost/nobody; typed or catch-all), A or B thrown at the bottom, optionally re-thrown by the '
@@ -48,12 +51,12 @@ CHECK = {
               'pre/post fixed (3.8M), chaining over the {nop,A,B} space; depth 3: {nop,A,B} in 8 slots x 64 filter triples x 4 shapes x 4 '
               'realisations (6.7M); sibling sequences 1.07M; siblings inside a try 4.2M; ASan+UBSan: depth 1 full (with chaining and forks on a '
               'shard), depth 2 and 3 and sequences on smaller alphabets; value-object mode (struct/String/Int thrown, distinct equal filters): '
-              'depth 1 full x3 kinds with chaining, 2916 forked, depth 2 1.05M (struct) + 200k (String), sequences 200k, ASan depth 1 + depth 2; deep nesting: 270 cases up to 2048 open try blocks x {types, struct values, mixed types, ASan}; mixed-type objects and filters: depth 1 full x3 rotations with chaining, forks, depth 2 1.05M + 2x200k, sequences, ASan'),
+              'depth 1 full x3 kinds with chaining, 2916 forked, depth 2 1.05M (struct) + 200k (String), sequences 200k, ASan depth 1 + depth 2; deep nesting: 270 cases up to 2048 open try blocks x {types, struct values, mixed types, ASan}; mixed-type objects and filters: depth 1 full x3 rotations with chaining, forks, depth 2 1.05M + 2x200k, sequences, ASan; message arguments whose Show uses try/catch/throw: depth 1 (each Show kind and mixed, types/struct/mixed objects, chaining, forks), depth 2 262k, deep nesting, ASan'),
     'thorough': ('depth 1 as quick; depth 2: 9-statement alphabet, pre/post in {nop,A,B} (34M), chaining over {nop,A,B,K0} with pre/post (1.05M x residual '
                  'states), 262k depth-2 programs without sentinel in forked children; depth 3: {nop,A,B,K0,K1} in 8 slots x 64 filter triples x 4 shapes x 4 '
                  'realisations (400M), {nop,A,B} with pre/post (60M); sequences 8.5M; siblings inside a try 25M; ASan+UBSan instances of each family; '
                  'value-object mode: depth 1 full x3 kinds (chaining, fresh threads, forks), depth 2 34M (struct) + 3.8M (String) + 3.8M (Int) + chaining, '
-                 'depth 3 67M, sequences 8.5M, siblings inside a try 4.2M, ASan depth 1 + depth 2; deep nesting as quick plus all three mixed rotations; mixed-type objects and filters x3 rotations: depth 1 full (chaining, fresh threads, forks), depth 2 7.6M each, depth 3 6.7M each, chaining, sequences, siblings inside a try, ASan'),
+                 'depth 3 67M, sequences 8.5M, siblings inside a try 4.2M, ASan depth 1 + depth 2; deep nesting as quick plus all three mixed rotations; mixed-type objects and filters x3 rotations: depth 1 full (chaining, fresh threads, forks), depth 2 7.6M each, depth 3 6.7M each, chaining, sequences, siblings inside a try, ASan; message arguments whose Show uses try/catch/throw: depth 1 full x5 object modes + each Show kind, depth 2 15M + 3x250k + 3.8M (struct), depth 3 6.7M, sequences, forks, deep nesting, ASan'),
   },
   'assumptions': [
     'exception kinds are singleton type objects (CelloEmpty; names are prefix-related on purpose: Net, NetErr, NetError, NetErrorTimeout, NetErrorTimeoutRetry), '
@@ -96,6 +99,16 @@ CHECK = {
          X('deep-mix', 'base', 'mode=deep', 'objs=mixed3'),
          X('d1-mix-asan', 'asan', 'objs=mixed2', 'depth=1', 'alpha=' + ALL, 'ppalpha=' + ALL, 'chain=1'),
          X('d2-mix-asan', 'asan', 'objs=mixed1', 'depth=2', 'alpha=0124', 'ppalpha=0')]
+      # throw whose message argument has a Show method that itself uses try/catch/throw (b115d2d)
+      + [X('d1-msg-mix', 'base', 'msg=mix', 'depth=1', 'alpha=' + ALL, 'ppalpha=' + ALL, 'chain=1'),
+         X('d1-msg-val', 'base', 'msg=mix', 'objs=struct', 'depth=1', 'alpha=' + ALL, 'ppalpha=012', 'chain=1'),
+         X('d1-msg-mixed', 'base', 'msg=mix', 'objs=mixed1', 'depth=1', 'alpha=' + ALL, 'ppalpha=012')]
+      + [X('d1-msg%d' % k, 'base', 'msg=%d' % k, 'depth=1', 'alpha=' + ALL, 'ppalpha=012') for k in (1, 2, 3, 4)]
+      + [X('d2-msg', 'base', 'msg=mix', 'depth=2', 'alpha=0124', 'ppalpha=01'),
+         X('d1-msg-fork', 'base', 'msg=mix', 'depth=1', 'alpha=0128', 'ppalpha=012', 'main=0', 'fork=1'),
+         X('deep-msg', 'base', 'mode=deep', 'msg=mix', 'objs=string'),
+         X('d1-msg-asan', 'asan', 'msg=mix', 'depth=1', 'alpha=' + ALL, 'ppalpha=012', 'chain=1'),
+         X('d2-msg-asan', 'asan', 'msg=mix', 'objs=struct', 'depth=2', 'alpha=012', 'ppalpha=0')]
       # deep dynamic nesting (recursion) up to EXCEPTION_MAX_DEPTH open try blocks, one forked child per case
       + [X('deep', 'base', 'mode=deep'),
          X('deep-val', 'base', 'mode=deep', 'objs=struct'),
@@ -144,6 +157,19 @@ CHECK = {
       + [X('d1-%s-asan' % m, 'asan', 'objs=' + m, 'depth=1', 'alpha=' + ALL, 'ppalpha=' + ALL, 'chain=1') for m in MIX]
       + S('d2-mix-asan', 'asan', 2, 'objs=mixed1', 'depth=2', 'alpha=' + ALL, 'ppalpha=0')
       + [X('deep-mix-asan', 'asan', 'mode=deep', 'objs=mixed2')]
+      # throw whose message argument has a Show method that itself uses try/catch/throw (b115d2d)
+      + [X('d1-msg-' + o, 'base', 'msg=mix', 'objs=' + o, 'depth=1', 'alpha=' + ALL, 'ppalpha=' + ALL, 'chain=1', 'fresh=1') for o in ('types', 'struct', 'string', 'mixed1', 'mixed2')]
+      + [X('d1-msg%d' % k, 'base', 'msg=%d' % k, 'depth=1', 'alpha=' + ALL, 'ppalpha=' + ALL, 'chain=1') for k in (1, 2, 3, 4)]
+      + [i for k in (1, 2, 4) for i in S('d2-msg%d' % k, 'base', 2, 'msg=%d' % k, 'depth=2', 'alpha=01245', 'ppalpha=01')]
+      + S('d2-msg', 'base', 4, 'msg=mix', 'depth=2', 'alpha=' + ALL, 'ppalpha=01')
+      + S('d2-msg-val', 'base', 2, 'msg=mix', 'objs=struct', 'depth=2', 'alpha=' + ALL, 'ppalpha=0')
+      + S('d3-msg', 'base', 4, 'msg=mix', 'depth=3', 'alpha=012', 'ppalpha=0')
+      + S('seq-msg', 'base', 2, 'msg=mix', 'kind=seq', 'alpha=' + ALL, 'ppalpha=01')
+      + S('d1-msg-fork', 'base', 2, 'msg=mix', 'depth=1', 'alpha=' + ALL, 'ppalpha=012', 'main=0', 'fork=1')
+      + [X('deep-msg', 'base', 'mode=deep', 'msg=mix', 'objs=string'), X('deep-msg4', 'base', 'mode=deep', 'msg=4')]
+      + [X('d1-msg-asan', 'asan', 'msg=mix', 'depth=1', 'alpha=' + ALL, 'ppalpha=' + ALL, 'chain=1'),
+         X('d2-msg-asan', 'asan', 'msg=mix', 'objs=struct', 'depth=2', 'alpha=0124', 'ppalpha=0'),
+         X('deep-msg-asan', 'asan', 'mode=deep', 'msg=mix')]
       # deep dynamic nesting (recursion) up to EXCEPTION_MAX_DEPTH open try blocks, one forked child per case
       + [X('deep', 'base', 'mode=deep'),
          X('deep-val', 'base', 'mode=deep', 'objs=struct'),
